@@ -1,0 +1,136 @@
+// Verification hooks for process groups (compiled only with `--cfg slawlor_ractor_verif`).
+//
+// * `snapshot()` copies the four indexes of `PgState` into sorted vectors so that an external
+//   harness can compare them with a model and check cross-index agreement / leak-freedom.
+// * `point(name)` is called in the lock-free gaps (and before each per-actor locked section)
+//   of the pg functions; it does nothing unless a harness installed a callback with
+//   `set_point_hook`, in which case the callback may park the calling thread to realise a
+//   chosen interleaving.
+// * `publish_stopping(cell)` runs the real exit path of `ActorCell::set_status(Stopping)`
+//   (publish, `demonitor_all`, `leave_all`) on the calling thread.
+//
+// No logic of the library lives here.
+
+//! Verification hooks for process groups (only with `--cfg slawlor_ractor_verif`).
+
+use std::sync::Arc;
+use std::sync::RwLock;
+
+use super::get_monitor;
+use super::lock_relations;
+use crate::ActorCell;
+use crate::ActorId;
+use crate::ActorStatus;
+
+/// Sorted copy of the four indexes of the process-group state.
+#[derive(Debug, Clone, Default, PartialEq, Eq)]
+pub struct PgSnapshot {
+    /// `(scope, group, member ids, listener ids)` for every entry of the group map
+    pub map: Vec<(String, String, Vec<ActorId>, Vec<ActorId>)>,
+    /// `(scope, groups)` for every entry of the scope index
+    pub index: Vec<(String, Vec<String>)>,
+    /// `(scope of the sentinel key, listener ids)` for every entry of the world listeners
+    pub world: Vec<(String, Vec<ActorId>)>,
+    /// `(actor, memberships, group monitors, world monitors (scope names))`
+    #[allow(clippy::type_complexity)]
+    pub relations: Vec<(
+        ActorId,
+        Vec<(String, String)>,
+        Vec<(String, String)>,
+        Vec<String>,
+    )>,
+}
+
+/// Copy the four indexes. Not atomic across entries: call it at quiescent points.
+pub fn snapshot() -> PgSnapshot {
+    let monitor = get_monitor();
+    let mut snap = PgSnapshot::default();
+    for kvp in monitor.map.iter() {
+        let mut members = kvp.value().members.keys().copied().collect::<Vec<_>>();
+        members.sort();
+        // listeners keep their order and multiplicity (a Vec in the real state)
+        let listeners = kvp
+            .value()
+            .listeners
+            .iter()
+            .map(|l| l.get_id())
+            .collect::<Vec<_>>();
+        snap.map.push((
+            kvp.key().scope.clone(),
+            kvp.key().group.clone(),
+            members,
+            listeners,
+        ));
+    }
+    snap.map.sort();
+    for kvp in monitor.index.iter() {
+        let mut groups = kvp.value().iter().cloned().collect::<Vec<_>>();
+        groups.sort();
+        snap.index.push((kvp.key().clone(), groups));
+    }
+    snap.index.sort();
+    for kvp in monitor.world_listeners.iter() {
+        let listeners = kvp.value().iter().map(|l| l.get_id()).collect::<Vec<_>>();
+        snap.world.push((kvp.key().scope.clone(), listeners));
+    }
+    snap.world.sort();
+    let relations = monitor
+        .actor_relations
+        .iter()
+        .map(|kvp| (*kvp.key(), kvp.value().clone()))
+        .collect::<Vec<_>>();
+    for (actor, relations) in relations {
+        let guard = lock_relations(&relations);
+        let pairs = |set: &std::collections::HashSet<super::ScopeGroupKey>| {
+            let mut v = set
+                .iter()
+                .map(|k| (k.scope.clone(), k.group.clone()))
+                .collect::<Vec<_>>();
+            v.sort();
+            v
+        };
+        let mut world = guard
+            .world_monitors
+            .iter()
+            .map(|k| k.scope.clone())
+            .collect::<Vec<_>>();
+        world.sort();
+        snap.relations.push((
+            actor,
+            pairs(&guard.memberships),
+            pairs(&guard.group_monitors),
+            world,
+        ));
+    }
+    snap.relations.sort();
+    snap
+}
+
+type PointHook = Arc<dyn Fn(&'static str) + Send + Sync>;
+
+static POINT_HOOK: RwLock<Option<PointHook>> = RwLock::new(None);
+
+/// Install (or remove) the callback invoked at every `point`.
+pub fn set_point_hook(hook: Option<PointHook>) {
+    *POINT_HOOK
+        .write()
+        .unwrap_or_else(std::sync::PoisonError::into_inner) = hook;
+}
+
+/// A named schedule point. Does nothing unless a callback is installed.
+pub fn point(name: &'static str) {
+    let hook = POINT_HOOK
+        .read()
+        .unwrap_or_else(std::sync::PoisonError::into_inner)
+        .clone();
+    if let Some(hook) = hook {
+        hook(name);
+    }
+}
+
+/// Run the exit path of `set_status(Stopping)` for `cell` on the calling thread:
+/// publish the status, then `demonitor_all` and `leave_all` (only on the first
+/// transition, exactly as the actor's own exit does). Returns the previous status.
+pub fn publish_stopping(cell: &ActorCell) -> ActorStatus {
+    cell.set_status(ActorStatus::Stopping)
+}
